@@ -3,7 +3,7 @@ import json
 import os
 import vlib
 
-ACTIONS = ["Init", "RunNsec", "RunNsec3", "BmAddType"]
+ACTIONS = ["Init", "RunNsec", "RunNsec3", "RunNsec3Params", "RunBad", "BmAddType"]
 
 META = {
     "category": "model_checking",
@@ -16,7 +16,7 @@ META = {
 
 def run(ctx):
     thorough = ctx.tier == "thorough"
-    ctx.build("replay_dnssec", "record_dnssec")
+    ctx.build("replay_denial", "record_denial")
     # model checking and case generation are one TLC run (the Emit invariants
     # print one case per explored zone / configuration)
     cases = os.path.join(ctx.work, "cases.ndjson")
@@ -33,26 +33,27 @@ def run(ctx):
             if i >= 20:
                 break
             g.write(line)
-    rc, out, err, _ = ctx.run_bin("replay_dnssec", ["--selftest-perturb"], stdin_path=head)
-    ctx.selftest("perturbed expectation is reported by replay_dnssec", "FAIL " in out)
-    ctx.replay_cases("replay_dnssec", cases, label="denial")
+    rc, out, err, _ = ctx.run_bin("replay_denial", ["--selftest-perturb"], stdin_path=head)
+    ctx.selftest("perturbed expectation is reported by replay_denial", "FAIL " in out)
+    ctx.replay_cases("replay_denial", cases, label="denial")
     # the sign-zone workflow as a machine over one SortedRecords collection
     wcases = os.path.join(ctx.work, "zonebuild-cases.ndjson")
-    wf = ctx.tlc("MC_ZoneBuild", "MC_ZoneBuild", workers=2, label="mc-zonebuild", cases_to=wcases)
+    wf = ctx.tlc("MC_ZoneBuild", "MC_ZoneBuild", workers=4, label="mc-zonebuild", cases_to=wcases)
     ctx.require_ok(wf, "MC_ZoneBuild")
-    ctx.require_actions(wf, ["Init", "BuildFrom", "BuildExtend", "BuildInsert", "GenExtend", "Gen"])
+    ctx.require_actions(wf, ["Init", "BuildFrom", "BuildExtend", "BuildInsert", "GenExtend", "Gen",
+                             "RemoveAll", "RemoveFirst", "UpdateData", "StripNsecs"])
     if wf.ncases < 20:
         raise vlib.ToolError("workflow model produced too few behaviours")
-    ctx.replay_cases("replay_dnssec", wcases, label="zonebuild")
+    ctx.replay_cases("replay_denial", wcases, label="zonebuild")
     # I->S
     n_traces = 4 if thorough else 2
     for i in range(n_traces):
         tr = os.path.join(ctx.work, "trace-%d.ndjson" % i)
-        rc, out, err, _ = ctx.run_bin("record_dnssec", ["denial", tr, str(ctx.seed * 100 + i),
+        rc, out, err, _ = ctx.run_bin("record_denial", [tr, str(ctx.seed * 100 + i),
                                                          "25" if thorough else "12",
                                                          "60" if thorough else "30"])
         if rc != 0:
-            raise vlib.ToolError("record_dnssec failed: " + err[-500:])
+            raise vlib.ToolError("record_denial failed: " + err[-500:])
         ok, res, rej = ctx.validate_trace("Trace_Denial", "Trace_Denial", tr, label="trace-%d" % i)
         ctx.traces += 1
         if not ok:
